@@ -222,6 +222,44 @@ func (c *w5Core) RouteMonitorProcessID(pid gen.PID, t gen.ProcessID) error {
 	return c.rec(w5Route{Kind: "MonitorProcessID", From: pid, To: w5name(t), Ret: c.byName(t.Name)})
 }
 
+func (c *w5Core) RouteLinkProcessID(pid gen.PID, t gen.ProcessID) error {
+	return c.rec(w5Route{Kind: "LinkProcessID", From: pid, To: w5name(t), Ret: c.byName(t.Name)})
+}
+func (c *w5Core) RouteUnlinkProcessID(pid gen.PID, t gen.ProcessID) error {
+	return c.rec(w5Route{Kind: "UnlinkProcessID", From: pid, To: w5name(t), Ret: c.byName(t.Name)})
+}
+func (c *w5Core) RouteDemonitorProcessID(pid gen.PID, t gen.ProcessID) error {
+	return c.rec(w5Route{Kind: "DemonitorProcessID", From: pid, To: w5name(t), Ret: c.byName(t.Name)})
+}
+func (c *w5Core) RouteUnlinkAlias(pid gen.PID, t gen.Alias) error {
+	return c.rec(w5Route{Kind: "UnlinkAlias", From: pid, To: w5alias(t), Ret: w5Script(t.ID[0])})
+}
+func (c *w5Core) RouteMonitorAlias(pid gen.PID, t gen.Alias) error {
+	return c.rec(w5Route{Kind: "MonitorAlias", From: pid, To: w5alias(t), Ret: w5Script(t.ID[0])})
+}
+func (c *w5Core) RouteDemonitorAlias(pid gen.PID, t gen.Alias) error {
+	return c.rec(w5Route{Kind: "DemonitorAlias", From: pid, To: w5alias(t), Ret: w5Script(t.ID[0])})
+}
+func (c *w5Core) RouteLinkEvent(pid gen.PID, t gen.Event) ([]gen.MessageEvent, error) {
+	return nil, c.rec(w5Route{Kind: "LinkEvent", From: pid, To: w5event(t), Ret: c.byName(t.Name)})
+}
+func (c *w5Core) RouteUnlinkEvent(pid gen.PID, t gen.Event) error {
+	return c.rec(w5Route{Kind: "UnlinkEvent", From: pid, To: w5event(t), Ret: c.byName(t.Name)})
+}
+func (c *w5Core) RouteMonitorEvent(pid gen.PID, t gen.Event) ([]gen.MessageEvent, error) {
+	return nil, c.rec(w5Route{Kind: "MonitorEvent", From: pid, To: w5event(t), Ret: c.byName(t.Name)})
+}
+func (c *w5Core) RouteDemonitorEvent(pid gen.PID, t gen.Event) error {
+	return c.rec(w5Route{Kind: "DemonitorEvent", From: pid, To: w5event(t), Ret: c.byName(t.Name)})
+}
+func (c *w5Core) RouteSpawn(node gen.Atom, name gen.Atom, o gen.ProcessOptionsExtra, source gen.Atom) (gen.PID, error) {
+	err := c.rec(w5Route{Kind: "Spawn", To: "spawn:" + string(name), ToName: string(name), Ret: c.byName(name)})
+	return gen.PID{Node: c.name, ID: 4242, Creation: c.creation}, err
+}
+func (c *w5Core) RouteApplicationStart(name gen.Atom, mode gen.ApplicationMode, o gen.ApplicationOptionsExtra, source gen.Atom) error {
+	return c.rec(w5Route{Kind: "ApplicationStart", To: "app:" + string(name), ToName: string(name), Ret: c.byName(name)})
+}
+
 func w5pid(p gen.PID) string     { return fmt.Sprintf("pid:%s/%d/%d", string(p.Node), p.ID, p.Creation) }
 func w5name(p gen.ProcessID) string { return fmt.Sprintf("name:%s/%s", string(p.Node), string(p.Name)) }
 func w5event(e gen.Event) string { return fmt.Sprintf("event:%s/%s", string(e.Node), string(e.Name)) }
